@@ -65,6 +65,41 @@ def entry_point_obligations(rep: Report):
     else:
         rep.fail("C12.entry.rule", "frame", "both entry points parse the start rule `file` for module input", "frames", f"parse_file: {pfr}; parse_string: {psr}",
                  witness={"parse_file": pfr, "parse_string": psr})
+    # the line source of parse_file: the builtin open(path, encoding='utf-8') -- text mode, default newline handling -- and its readline.
+    # Any other way of getting at the file (tokenize.open, io/codecs.open, Path.open, a newline= / errors= option, reading bytes) makes the
+    # decoded lines depend on the file's own content (BOM, coding cookie) or on options parse_string has no counterpart for.
+    withs = [n for n in ast.walk(fns["parse_file"]) if isinstance(n, ast.With)]
+    src_ok, why = False, "no `with open(...) as f` in parse_file"
+    if len(withs) == 1 and len(withs[0].items) == 1:
+        ce, var = withs[0].items[0].context_expr, withs[0].items[0].optional_vars
+        kws = {k.arg: k.value for k in ce.keywords} if isinstance(ce, ast.Call) else {}
+        mode = ce.args[1] if isinstance(ce, ast.Call) and len(ce.args) > 1 else kws.get("mode")
+        src_ok = (isinstance(ce, ast.Call) and isinstance(ce.func, ast.Name) and ce.func.id == "open" and 1 <= len(ce.args) <= 2
+                  and set(kws) <= {"encoding", "mode"} and isinstance(kws.get("encoding"), ast.Constant)
+                  and str(kws["encoding"].value).lower().replace("-", "").replace("_", "") == "utf8"
+                  and (mode is None or (isinstance(mode, ast.Constant) and mode.value in ("r", "rt")))
+                  and isinstance(var, ast.Name))
+        why = f"`{ast.unparse(ce)}`"
+        if src_ok:
+            gts = [n for n in ast.walk(withs[0]) if isinstance(n, ast.Call) and (getattr(n.func, "id", None) or getattr(n.func, "attr", None)) == "generate_tokens"]
+            src_ok = len(gts) == 1 and len(gts[0].args) == 1 and ast.unparse(gts[0].args[0]) == f"{var.id}.readline"
+            why = f"generate_tokens is fed `{ast.unparse(gts[0].args[0]) if gts and gts[0].args else '?'}`, expected `{var.id}.readline`"
+    dsc = "parse_file reads its lines from the builtin open(path, encoding='utf-8') (text mode, default newline handling) through readline: the decoded text depends neither on the locale nor on a BOM / coding cookie in the file"
+    if src_ok:
+        rep.ok("C12.entry.linesource", "frame", dsc, "frames", function=f"{rel}:Parser.parse_file")
+    else:
+        rep.fail("C12.entry.linesource", "frame", dsc, "frames", why, witness={"found": why}, function=f"{rel}:Parser.parse_file")
+    # no other file access on the parse path (attribute-style opens and whole-file reads are not covered by the encoding obligation below)
+    for r2 in ("peg_parser/subheader.py", "peg_parser/tokenizer.py", "peg_parser/tokenize.py"):
+        t = ast.parse(open(os.path.join(REPO, r2), encoding="utf-8").read())
+        bad = [f"{ast.unparse(n)[:80]} (line {n.lineno})" for n in ast.walk(t) if isinstance(n, ast.Call) and isinstance(n.func, ast.Attribute)
+               and n.func.attr in ("open", "read_text", "read_bytes", "fdopen", "detect_encoding")]
+        oid = f"C12.ambient.{os.path.basename(r2)}.other_file_access"
+        dsc = f"{r2}: no file is opened or read other than through the builtin open() (whose encoding is an obligation of its own)"
+        if bad:
+            rep.fail(oid, "ambient", dsc, "frames", "; ".join(bad[:3]), witness=bad[:5], function=f"{r2}:<module>")
+        else:
+            rep.ok(oid, "ambient", dsc, "frames", function=f"{r2}:<module>")
     # ambient reads: every open() passes an explicit encoding
     for r2 in ("peg_parser/subheader.py", "peg_parser/tokenizer.py", "peg_parser/tokenize.py"):
         t = ast.parse(open(os.path.join(REPO, r2), encoding="utf-8").read())
@@ -100,7 +135,11 @@ def standin(rep: Report):
                                                        # raw-capture constructs (they read the line source on their own) followed by an error on another line
                                                        "echo!(hello world)\ny = = 1\n", "def g():\n    log!(a b)\n    return (1 2)\n", "f!(a,\n b\n ,c) = 1\n",
                                                        "with! ctx:\n    body here\ny = (1 2)\n", "with! ctx: one line\nz = = 2\n", "$(echo! a  b)\nq = (3 4)\n",
-                                                       "x = f'{a}' \\\n  'b'\ny = (5 6)\n"]
+                                                       "x = f'{a}' \\\n  'b'\ny = (5 6)\n",
+                                                       # contents that carry their own encoding declaration: both entry points read them as the UTF-8 text they are
+                                                       "\ufeffx = 1\n", "\ufeffx = (1 2)\n", "# -*- coding: latin-1 -*-\ns = 'é'\nprint(s)\n", "# vim: set fileencoding=cp1252 :\nn = 'Zoë'; m = n\n",
+                                                       "#!/usr/bin/env xonsh\n# coding: ascii\nx = 'ü'\n", "# coding: nonsense\nx = 1\n", "# coding: latin-1\n'é' = 1\n",
+                                                       "# -*- coding: utf-8 -*-\nx = 'é'\n"]
     contents = []
     for s in base:
         contents.append(s)
